@@ -685,6 +685,14 @@ func cacheViews(repo repository.ClockedRepo, ids []entity.Id) (map[string]view, 
 	return out, nil
 }
 
+func unreadable(ids []entity.Id, why string) map[string]view {
+	out := map[string]view{}
+	for _, id := range ids {
+		out[string(id)] = view{Err: why}
+	}
+	return out
+}
+
 func lookup(m map[string]view, id entity.Id, failure string) view {
 	if v, ok := m[string(id)]; ok {
 		return v
@@ -942,8 +950,8 @@ func (w *wk) runBatch(strs []string) BatchOut {
 	vctl.SetActor("read/A")
 	allA, allAErr := readAllViews(A)
 	cacheA, err := cacheViews(A, ids)
-	if err != nil {
-		return fail(fmt.Errorf("cache on A: %w", err))
+	if err != nil { // a cache that cannot be built over committed bugs: every case is unreadable through it
+		cacheA = unreadable(ids, "cache cannot be built: "+err.Error())
 	}
 	A2, err := repository.OpenGoGitRepo(filepath.Join(ww.Dir, "A"), world.Namespace, nil)
 	if err != nil {
@@ -970,8 +978,8 @@ func (w *wk) runBatch(strs []string) BatchOut {
 	vctl.SetActor("read/B")
 	allB, allBErr := readAllViews(B)
 	cacheB, err := cacheViews(B, ids)
-	if err != nil {
-		return fail(fmt.Errorf("cache on B: %w", err))
+	if err != nil { // a cache that cannot be built over committed bugs: every case is unreadable through it
+		cacheB = unreadable(ids, "cache cannot be built: "+err.Error())
 	}
 	bkB := &backend{name: "replicaB", repo: B, authors: bkA.authors, files: bkA.files}
 	R := ww.Repos["R"]
@@ -1038,7 +1046,7 @@ func (w *wk) runBatch(strs []string) BatchOut {
 	allM, allMErr := readAllViews(mock)
 	cacheM, err := cacheViews(mock, mids)
 	if err != nil {
-		return fail(fmt.Errorf("cache on mockRepo: %w", err))
+		cacheM = unreadable(mids, "cache cannot be built: "+err.Error())
 	}
 	for i, r := range mruns {
 		if r.dead || r.b == nil {
